@@ -11,6 +11,12 @@
    OutcomeAllowed(o) is what the PROPERTY allows as an observed outcome (level 2).        *)
 EXTENDS Integers, Sequences, FiniteSets, TLC
 
+CONSTANTS
+  Weak_BitArrayUnchecked,       \* consensus messages accept a wire BitArray whose Elems do not match Bits
+                                \* (no bits.BitArray.ValidateBasic): the behaviour of the unrepaired tree
+  Weak_ProposalTotalUnbounded   \* ProposalMessage.ValidateBasic does not bound BlockID.PartSetHeader.Total
+                                \* (the behaviour of the unrepaired tree)
+
 Reactors == {"consensus", "mempool", "evidence", "blockchain", "statesync", "pex"}
 
 \* classes shared by every integer "height" / "round" field
@@ -105,16 +111,22 @@ PS(r) == CASE r = "consensus" -> ConsPS [] r = "mempool" -> MemPS [] r = "eviden
 DamagedEnc == {"truncated", "truncated1", "bitflip_first", "bitflip_len", "bitflip_mid", "bitflip_last",
                "garbage", "append_junk"}
 
+\* the instance of a kind whose encoding is damaged: the valid one where the alphabet has one
+BaseFC(r, k) == IF "valid" \in FC(r, k) THEN "valid"
+                ELSE IF r = "evidence" THEN "dup_unverifiable"
+                ELSE IF k = "BlockResponse" THEN "unsolicited_near"
+                ELSE IF k = "PexAddrs" THEN "unsolicited"
+                ELSE CHOOSE f \in FC(r, k) : TRUE
+
 \* every (reactor, kind, field class, peer state) with the intact encoding, and every damaged
-\* encoding of the valid instance of each kind in each peer state
+\* encoding of the base instance of each kind in each peer state
 Cases ==
   UNION {UNION {UNION {
       {[reactor |-> r, kind |-> k, fc |-> f, ps |-> p, enc |-> "proto"] : p \in PS(r)}
         : f \in FC(r, k)} : k \in Kinds(r)} : r \in Reactors}
   \cup
   UNION {UNION {
-      {[reactor |-> r, kind |-> k, fc |-> (CHOOSE f \in FC(r, k) : \A g \in FC(r, k) : f = "valid" \/ g # "valid"),
-        ps |-> p, enc |-> e] : p \in PS(r), e \in DamagedEnc}
+      {[reactor |-> r, kind |-> k, fc |-> BaseFC(r, k), ps |-> p, enc |-> e] : p \in PS(r), e \in DamagedEnc}
         : k \in Kinds(r) \ {"Empty"}} : r \in Reactors}
 
 \* ------------------------------------------------------------------ what the property allows
@@ -125,48 +137,127 @@ Cases ==
 \*   consensus_failure  number of "CONSENSUS FAILURE!!!" (consensus state machine halted)
 \*   retained bytes still reachable after the case, cap = RecvMessageCapacity of the channel
 \*   crash    the process died while the case executed
-RetainedSlack == 1048576   \* measurement noise of the heap probe
+\* "never makes it buffer more than the channel's configured capacity": what one message may leave
+\* behind is the connection's reassembly buffer (Channel.recving keeps its backing array, at most
+\* RecvMessageCapacity bytes, for the life of the connection) plus at most one stored copy of the
+\* message if the reactor accepts it (a transaction, a snapshot description, ...), also at most
+\* RecvMessageCapacity bytes; RetainedSlack is the measurement noise of the heap probe.
+RetainedSlack == 1048576
+RetainedBound(o) == 2 * o.cap + RetainedSlack
 OutcomeAllowed(o) ==
   /\ o.barrier \in {"echo", "stopped"}
   /\ o.honest = "echo"
   /\ o.probe = "ok"
   /\ o.consensus_failure = 0
-  /\ o.retained <= o.cap + RetainedSlack
+  /\ o.retained <= RetainedBound(o)
 ViolationClass(o) ==
   IF o.barrier \notin {"echo", "stopped"} THEN "wedge_receive_routine"
   ELSE IF o.honest # "echo" THEN "honest_peer_affected"
   ELSE IF o.probe # "ok" THEN "wedge_node"
   ELSE IF o.consensus_failure # 0 THEN "consensus_halted"
-  ELSE IF o.retained > o.cap + RetainedSlack THEN "retains_more_than_capacity"
+  ELSE IF o.retained > RetainedBound(o) THEN "retains_more_than_capacity"
   ELSE "none"
 
 \* ------------------------------------------------------------------ expected reaction (level 1), consensus
 \* "stop"   : the peer is disconnected (ValidateBasic / decode error / ValidateHeight / caught panic)
 \* "keep"   : the peer stays (message applied, queued, answered or ignored)
-\* For the other reactors only the decode-level expectation is specified.
+\* fields checked by the message's ValidateBasic (consensus/reactor.go) / by MsgFromProto
 ConsStopFC(k) ==
-  {"h_neg", "r_neg"} \cup
-  (CASE k = "NewRoundStep"  -> {"h_zero", "h_prev_below_initial", "step_zero", "step_max", "lcr_neg2", "lcr_mismatch"}
-     [] k = "NewValidBlock" -> {"psh_hash_short", "bits_nil", "bits_zero", "bits_neg", "bits_neg_big", "bits_over_max",
-                                "psh_total_zero", "psh_total_max", "bits_one", "bits_max_allowed",
-                                "bits_elems_missing", "bits_elems_short", "bits_elems_extra"}
-     [] k = "Proposal"      -> {"inner_zero", "type_wrong", "pol_lt_m1", "blockid_incomplete", "sig_empty", "sig_long",
-                                "psh_total_zero", "psh_total_max", "psh_total_big"}
-     [] k = "ProposalPOL"   -> {"bits_nil", "bits_zero", "bits_over_max", "pol_neg", "bits_neg", "bits_neg_big",
-                                "bits_elems_missing", "bits_elems_short", "bits_elems_extra"}
-     [] k = "BlockPart"     -> {"part_zero", "bytes_oversize", "proof_total_neg", "proof_index_neg", "proof_leaf_short",
-                                "proof_aunts_many", "bytes_empty"}
-     [] k = "Vote"          -> {"inner_nil", "type_invalid", "index_neg", "addr_short", "sig_empty", "sig_long",
-                                "blockid_incomplete"}
-     [] k = "HasVote"       -> {"type_invalid", "index_neg"}
-     [] k = "VoteSetMaj23"  -> {"type_invalid", "blockid_hash_short"}
-     [] k = "VoteSetBits"   -> {"type_invalid", "blockid_hash_short", "bits_over_max", "bits_neg", "bits_neg_big",
-                                "bits_elems_missing", "bits_elems_short", "bits_elems_extra"}
-     [] k = "Empty"         -> {"no_sum"})
+  CASE k = "NewRoundStep"  -> {"h_neg", "r_neg", "h_zero", "step_zero", "step_max", "lcr_neg2", "lcr_mismatch"}
+    [] k = "NewValidBlock" -> {"h_neg", "r_neg", "psh_hash_short", "bits_nil", "bits_zero", "bits_neg", "bits_neg_big",
+                               "bits_over_max", "psh_total_zero", "psh_total_max",
+                               "bits_elems_missing", "bits_elems_short", "bits_elems_extra"}
+    [] k = "Proposal"      -> {"h_neg", "r_neg", "inner_zero", "type_wrong", "pol_lt_m1", "blockid_incomplete", "sig_empty",
+                               "sig_long", "psh_total_zero", "psh_total_max", "psh_total_big"}
+    [] k = "ProposalPOL"   -> {"h_neg", "bits_nil", "bits_zero", "bits_over_max", "pol_neg", "bits_neg", "bits_neg_big",
+                               "bits_elems_missing", "bits_elems_short", "bits_elems_extra"}
+    [] k = "BlockPart"     -> {"h_neg", "r_neg", "part_zero", "bytes_oversize", "proof_total_neg", "proof_index_neg",
+                               "proof_leaf_short", "proof_aunts_many"}
+    [] k = "Vote"          -> {"h_neg", "r_neg", "inner_nil", "type_invalid", "index_neg", "addr_short", "sig_empty",
+                               "sig_long", "blockid_incomplete"}
+    [] k = "HasVote"       -> {"h_neg", "r_neg", "type_invalid", "index_neg"}
+    [] k = "VoteSetMaj23"  -> {"h_neg", "r_neg", "type_invalid", "blockid_hash_short"}
+    \* VoteSetBitsMessage.ValidateBasic does not look at Round
+    [] k = "VoteSetBits"   -> {"h_neg", "type_invalid", "blockid_hash_short", "bits_over_max", "bits_neg", "bits_neg_big",
+                               "bits_elems_missing", "bits_elems_short", "bits_elems_extra"}
+    [] k = "Empty"         -> {"no_sum"}
+\* node-state dependent: NewRoundStepMessage.ValidateHeight against the chain's initial height (1);
+\* the node is at height 1 in these peer-state classes, at height 2 in the others
+NodeAtInitialHeight(ps) == ps \in {"fresh", "nrs", "mid", "syncing"}
+BitsMismatchFC == {"bits_elems_missing", "bits_elems_short", "bits_elems_extra"}
+ConsStops(c) ==
+  /\ c.fc \in ConsStopFC(c.kind)
+  /\ ~(Weak_BitArrayUnchecked /\ c.fc \in BitsMismatchFC)
+  /\ ~(Weak_BitArrayUnchecked /\ c.kind \in {"ProposalPOL", "VoteSetBits"} /\ c.fc = "bits_neg")
+  /\ ~(Weak_ProposalTotalUnbounded /\ c.kind = "Proposal" /\ c.fc \in {"psh_total_max", "psh_total_big"})
 ExpectCons(c) ==
-  IF c.enc \in {"garbage", "truncated", "truncated1", "bitflip_first", "bitflip_len", "bitflip_mid", "bitflip_last", "append_junk"}
-  THEN "any"                                   \* damaged encodings: decode may or may not succeed
-  ELSE IF c.fc \in ConsStopFC(c.kind) THEN "stop"
+  IF c.enc # "proto" THEN "any"                \* damaged encodings: decode may or may not succeed
+  ELSE IF ConsStops(c) THEN "stop"
+  ELSE IF c.kind = "NewRoundStep" /\ c.fc = "h_prev" /\ NodeAtInitialHeight(c.ps) THEN "stop"
+  \* HeightVoteSet.SetPeerMaj23 refuses a second, different claim of the same peer ID for the same
+  \* (round, type): depends on what this peer ID claimed in earlier cases
+  ELSE IF c.kind = "VoteSetMaj23" THEN "any"
   ELSE "keep"
-Expect(c) == IF c.reactor = "consensus" THEN ExpectCons(c) ELSE "any"
+
+\* What a message that was KEPT does to the node afterwards (the reactor's own goroutines work on the
+\* peer state the message wrote).  "none" for every case of the repaired code; the Weak_ switches
+\* bring back the two consequences the unrepaired code has:
+\*   gossipDataRoutine indexes PRS.ProposalBlockParts (the peer's BitArray) with a part index below
+\*   Bits: SetHasProposalBlockPart -> BitArray.setIndex, gossipDataForCatchup -> Not().PickRandom()
+\*   -> getTrueIndices: out of range, in a goroutine without recover -> the process dies;
+\*   PeerState.SetHasProposal allocates bits.NewBitArray(Total) before any signature check.
+Consequence(c) ==
+  IF c.reactor # "consensus" \/ c.enc # "proto" \/ ExpectCons(c) # "keep" THEN "none"
+  ELSE IF Weak_BitArrayUnchecked /\ c.kind = "NewValidBlock" /\ c.fc = "bits_elems_missing"
+          /\ c.ps \in {"nrs", "mid", "behind"} THEN "gossip_routine_panics"
+  ELSE IF Weak_ProposalTotalUnbounded /\ c.kind = "Proposal" /\ c.fc \in {"psh_total_max", "psh_total_big"}
+          /\ c.ps = "nrs_h2" THEN "allocates_total_bits"
+  ELSE "none"
+
+\* ------------------------------------------------------------------ expected reaction, other reactors
+\* blockchain/msgs.go ValidateMsg (+ types.BlockFromProto / Block.ValidateBasic for BlockResponse)
+BcStopFC(k) ==
+  CASE k = "BlockRequest"    -> {"h_neg"}
+    [] k = "NoBlockResponse" -> {"h_neg"}
+    [] k = "StatusRequest"   -> {}
+    [] k = "StatusResponse"  -> {"base_neg", "h_neg", "base_gt_height"}
+    [] k = "BlockResponse"   -> {"block_nil", "block_zero", "header_neg_height", "lastcommit_nil", "evidence_bad", "data_huge"}
+    [] k = "Empty"           -> {"no_sum"}
+ExpectBc(c) ==
+  IF c.fc \in BcStopFC(c.kind) THEN "stop"
+  \* a block nobody asked for: reported to poolRoutine only while the pool runs (fast sync), and a
+  \* block for a height the pool did request from this peer is verified later by poolRoutine
+  ELSE IF c.kind = "BlockResponse" /\ c.ps # "fresh_synced" THEN "any"
+  ELSE "keep"
+\* statesync/messages.go validateMsg
+SsStopFC(k) ==
+  CASE k = "SnapshotsRequest"  -> {}
+    [] k = "SnapshotsResponse" -> {"h_zero", "hash_empty", "chunks_zero"}
+    [] k = "ChunkRequest"      -> {"h_zero"}
+    [] k = "ChunkResponse"     -> {"h_zero", "missing_with_chunk", "present_nil_chunk"}
+    [] k = "Empty"             -> {"no_sum"}
+ExpectSs(c) == IF c.fc \in SsStopFC(c.kind) THEN "stop" ELSE "keep"
+\* p2p/pex: a third request inside the minimum interval, an address list nobody asked for, an address
+\* that p2p.NetAddressFromProto refuses (unparsable IP, port >= 2^16)
+ExpectPex(c) ==
+  IF c.kind = "Empty" THEN "stop"
+  ELSE IF c.kind = "PexRequest" THEN (IF c.fc = "thrice" THEN "stop" ELSE "keep")
+  ELSE IF c.ps = "fresh" THEN "stop"
+  ELSE IF c.fc \in {"ip_bad", "port_big"} THEN "stop"
+  ELSE IF c.fc = "unsolicited" THEN "keep"        \* in peer state "requested" it is the answer
+  ELSE "keep"
+\* mempool/v0: every decodable Txs message is handed to CheckTx and the peer is kept; a message
+\* above the channel's RecvMessageCapacity is refused by the connection
+ExpectMem(c) == IF c.kind = "Empty" \/ c.fc = "tx_over_max" THEN "stop" ELSE "keep"
+\* evidence: evidenceListFromProto (decode + ValidateBasic) and Pool.AddEvidence -> ErrInvalidEvidence
+ExpectEv(c) == IF c.fc = "list_empty" THEN "keep" ELSE "stop"
+
+Expect(c) ==
+  IF c.enc # "proto" THEN "any"
+  ELSE CASE c.reactor = "consensus"  -> ExpectCons(c)
+         [] c.reactor = "blockchain" -> ExpectBc(c)
+         [] c.reactor = "statesync"  -> ExpectSs(c)
+         [] c.reactor = "pex"        -> ExpectPex(c)
+         [] c.reactor = "mempool"    -> ExpectMem(c)
+         [] c.reactor = "evidence"   -> ExpectEv(c)
 =============================================================================
